@@ -65,6 +65,11 @@ impl Future for YieldN {
 // The attribute itself is written at the call site (and only passed through), so that the
 // identifiers in its format strings resolve like they do for a hand-written annotation.
 macro_rules! twin {
+    ($(#[$attr:meta])* [$($q:tt)*] fn $p:ident / $t:ident $($rest:tt)*) => {
+        $($q)* fn $p $($rest)*
+        $(#[$attr])*
+        $($q)* fn $t $($rest)*
+    };
     ($(#[$attr:meta])* fn $p:ident / $t:ident $($rest:tt)*) => {
         fn $p $($rest)*
         $(#[$attr])*
@@ -108,6 +113,37 @@ twin!(#[fastrace::trace()] fn locals_p / locals_t (a: u32) -> u32 { here!(); let
 twin!(#[fastrace::trace()] fn nested_p / nested_t (a: u32) -> u32 { here!(); log("outer"); value_t(a) + value_p(a) });
 twin!(#[fastrace::trace()] fn unit_p / unit_t () { here!(); log("unit") });
 twin!(#[fastrace::trace()] fn impl_ret_p / impl_ret_t (a: u32) -> impl Iterator<Item = u32> { here!(); (0..a).map(|x| x * 2) });
+twin!(#[fastrace::trace()] fn mutarg_p / mutarg_t (mut a: u32) -> u32 { here!(); a += 1; log(format!("a:{a}")); a });
+twin!(#[fastrace::trace()] fn pattern_p / pattern_t ((a, b): (u32, u32), [c, d]: [u32; 2], _: u32) -> u32 { here!(); log("pattern"); a + b * 10 + c * 100 + d * 1000 });
+twin!(#[fastrace::trace()] fn constgen_p / constgen_t<const N: usize> (a: u32, x: [u8; N]) -> usize { here!(); N + a as usize + x.iter().map(|b| *b as usize).sum::<usize>() });
+twin!(#[fastrace::trace()] [unsafe] fn unsafe_p / unsafe_t (a: u32, p: *const u32) -> u32 { here!(); log("unsafe"); a + *p });
+twin!(#[fastrace::trace()] [pub(crate) extern "C"] fn externc_p / externc_t (a: u32) -> u32 { here!(); a + 11 });
+twin!(#[fastrace::trace()] fn loops_p / loops_t (a: u32) -> u32 { here!(); let mut i = 0; let r = 'outer: loop { for k in 0..10 { if k + i > a + 2 { break 'outer k * 7; } } i += 1; }; log(format!("r:{r}")); r });
+twin!(#[fastrace::trace()] fn closure_ret_p / closure_ret_t (a: u32) -> impl Fn(u32) -> u32 { here!(); log("mk-closure"); move |x| x * 3 + a });
+twin!(#[fastrace::trace()] fn inner_items_p / inner_items_t (a: u32) -> u32 { here!(); const K: u32 = 3; struct W(u32); impl W { fn get(&self) -> u32 { self.0 * K } } fn inner(x: u32) -> u32 { x + K } inner(W(a).get()) });
+twin!(#[fastrace::trace()] fn closure_early_p / closure_early_t (a: u32) -> u32 { here!(); let f = |x: u32| -> u32 { if x == 0 { return 7; } x }; log("after-closure"); f(a) + 1 });
+twin!(#[fastrace::trace()] fn let_else_p / let_else_t (a: u32) -> u32 { here!(); let Some(v) = a.checked_sub(1) else { log("else"); return 77; }; match v { 0 => { log("zero"); 0 } n => n * 2 } });
+twin!(#[fastrace::trace()] fn tail_borrow_p / tail_borrow_t (a: u32) -> usize { here!(); let s = Droppy("tail-local"); let v = vec![a; 3]; log(s.0); v.len() });
+twin!(#[fastrace::trace()] fn unwind_locals_p / unwind_locals_t (a: u32) -> u32 { here!(); let _x = Droppy("ux"); let v: Vec<u32> = Vec::new(); let _y = Droppy("uy"); if a == 1 { return v[3]; } a });
+fn rec_p(a: u32) -> u32 {
+    here!();
+    log(format!("rec:{a}"));
+    if a == 0 {
+        0
+    } else {
+        1 + rec_p(a - 1)
+    }
+}
+#[fastrace::trace]
+fn rec_t(a: u32) -> u32 {
+    here!();
+    log(format!("rec:{a}"));
+    if a == 0 {
+        0
+    } else {
+        1 + rec_t(a - 1)
+    }
+}
 
 /// functions whose identifier is a single letter (the helper item inside func_path!() is called
 /// `f` too); not twins: the expected names are written out
@@ -150,6 +186,29 @@ impl S {
         self.v - a.min(self.v)
     }
     twin!(#[fastrace::trace()] async fn aref_p / aref_t (&self, a: u32, y: u32) -> u32 { here!(); YieldN(y).await; log("aref"); self.v + a });
+    twin!(#[fastrace::trace()] fn boxself_p / boxself_t (self: Box<Self>, a: u32) -> u32 { here!(); log("boxself"); self.v + a });
+    twin!(#[fastrace::trace()] fn arcself_p / arcself_t (self: &std::sync::Arc<Self>, a: u32) -> usize { here!(); std::sync::Arc::strong_count(self) + a as usize });
+    twin!(#[fastrace::trace()] fn make_p / make_t (a: u32) -> Self { here!(); log("make"); Self { v: a + Self::K } });
+    const K: u32 = 40;
+    twin!(#[fastrace::trace(enter_on_poll = true)] async fn amut_p / amut_t (&mut self, a: u32, y: u32) -> Result<u32, String> { here!(); self.v += 1; YieldN(y).await; if a == 1 { Err(format!("e{}", self.v))?; } self.v += 1; Ok(self.v) });
+}
+
+struct G<T> {
+    t: T,
+}
+impl<T: Clone + std::fmt::Debug> G<T> {
+    twin!(#[fastrace::trace()] fn get_p / get_t (&self, a: u32) -> (T, u32) { here!(); log(format!("{:?}", self.t)); (self.t.clone(), a) });
+    twin!(#[fastrace::trace()] async fn aget_p / aget_t<U: Into<u64>> (&self, a: u32, y: u32, u: U) -> (T, u64) { here!(); YieldN(y).await; (self.t.clone(), u.into() + a as u64) });
+}
+
+trait Dflt {
+    fn base(&self) -> u32;
+    twin!(#[fastrace::trace()] fn dflt_p / dflt_t (&self, a: u32) -> u32 { here!(); log("dflt"); self.base() + a });
+}
+impl Dflt for S {
+    fn base(&self) -> u32 {
+        self.v * 2
+    }
 }
 
 // ---------------- async functions ----------------
@@ -177,6 +236,14 @@ twin!(#[fastrace::trace()] async fn agen_p / agen_t<T: Clone + Send + 'static> (
 twin!(#[fastrace::trace()] async fn amacro_p / amacro_t (a: u32, y: u32) -> Vec<u32> { here!(); log("m:start"); let v = vec![{ YieldN(y).await; a }, a + 1]; let _inner = fastrace::local::LocalSpan::enter_with_local_parent("after-await"); log("m:end"); v });
 twin!(#[fastrace::trace()] async fn aassert_p / aassert_t (a: u32, y: u32) -> u32 { here!(); assert!({ YieldN(y).await; a < 10 }, "never"); log(format!("{}", { YieldN(1).await; a })); a });
 twin!(#[fastrace::trace()] async fn anested_p / anested_t (a: u32, y: u32) -> u32 { here!(); let x = avalue_t(a, y).await; x + value_t(a) });
+twin!(#[fastrace::trace()] async fn arefs_p / arefs_t (a: u32, y: u32, r: &str, m: &mut String) -> usize { here!(); m.push_str(r); YieldN(y).await; m.push_str(&a.to_string()); m.len() });
+twin!(#[fastrace::trace()] async fn apattern_p / apattern_t ((a, b): (u32, u32), mut y: u32) -> u32 { here!(); y += b; YieldN(y).await; a + y });
+// (`#[trace] async unsafe fn` is rejected: the macro emits `unsafe async fn`; outside the quantifier)
+twin!(#[fastrace::trace()] async fn anoawait_p / anoawait_t (a: u32, y: u32) -> u32 { here!(); log("no-await"); a + y });
+twin!(#[fastrace::trace()] async fn adrops_p / adrops_t (a: u32, y: u32) -> u32 { here!(); let _before = Droppy("before-await"); YieldN(y).await; let _after = Droppy("after-await"); YieldN(y.min(1)).await; log("adrops:end"); a });
+twin!(#[fastrace::trace()] async fn ainner_p / ainner_t (a: u32, y: u32) -> u32 { here!(); let blk = async { YieldN(y).await; a * 2 }; let f = |x: u32| async move { YieldN(1).await; x + 1 }; let v = blk.await; f(v).await });
+twin!(#[fastrace::trace()] async fn aimpl_p / aimpl_t (a: u32, y: u32, it: impl Iterator<Item = u32>) -> Vec<u32> { here!(); let mut v = Vec::new(); for x in it { YieldN(y.min(1)).await; v.push(x + a); } v });
+twin!(#[fastrace::trace(enter_on_poll = true)] async fn aeop_q_p / aeop_q_t (a: u32, y: u32) -> Result<u32, String> { here!(); YieldN(y).await; if a == 2 { return Err("eop-err".into()); } let r: Result<u32, String> = Ok(a); Ok(r? + 1) });
 
 // hand-written functions that return a boxed future (the shape the async-trait detection looks for)
 type BoxFut<T> = Pin<Box<dyn Future<Output = T>>>;
@@ -276,6 +343,25 @@ fn drive<F: Future>(f: F) -> (F::Output, u32) {
         }
         assert!(polls < 100);
     }
+}
+
+/// Polls a future `n` times, then drops it unfinished (cancellation).
+fn drive_cancel<F: Future>(f: F, n: u32) -> (Option<F::Output>, u32) {
+    let mut f = Box::pin(f);
+    let w = noop_waker();
+    let mut cx = Context::from_waker(&w);
+    for polls in 1..=n {
+        log(format!("poll#{polls}"));
+        let parent = PER_POLL_PARENT.with(|p| p.borrow().clone());
+        let _scope = parent.as_ref().map(|p| p.set_local_parent());
+        if let Poll::Ready(v) = f.as_mut().poll(&mut cx) {
+            return (Some(v), polls);
+        }
+    }
+    log("cancel");
+    drop(f);
+    log("cancelled");
+    (None, n)
 }
 
 #[derive(Debug, Clone, PartialEq)]
@@ -389,6 +475,32 @@ macro_rules! async_case {
     };
 }
 
+/// the future is polled `n` times (1 or 2) and then dropped; `y` pending polls = n, so it never completes
+macro_rules! cancel_case {
+    ($cases:ident, $id:expr, $name:expr, $props:expr, $per_poll:expr, |$a:ident, $y:ident| $p:expr, $t:expr) => {
+        for $a in [0u32, 2] {
+            for n in [1u32, 2] {
+                let $y = n;
+                $cases.push(Case {
+                    id: format!("{}/cancelled({},polls={})", $id, $a, n),
+                    plain: Box::new(move || {
+                        let (v, k) = drive_cancel($p, n);
+                        (d(v), k)
+                    }),
+                    traced: Box::new(move || {
+                        let (v, k) = drive_cancel($t, n);
+                        (d(v), k)
+                    }),
+                    name: $name,
+                    props: $props($a),
+                    per_poll: $per_poll,
+                    is_async: true,
+                });
+            }
+        }
+    };
+}
+
 fn no_props(_: u32) -> Vec<(String, String)> {
     vec![]
 }
@@ -456,6 +568,24 @@ fn cases() -> Vec<Case> {
     sync_case!(c, "nested", None, no_props, |a| nested_p(a), nested_t(a));
     sync_case!(c, "unit", None, no_props, |a| { let _ = a; unit_p() }, { let _ = a; unit_t() });
     sync_case!(c, "impl_ret", None, no_props, |a| impl_ret_p(a).collect::<Vec<_>>(), impl_ret_t(a).collect::<Vec<_>>());
+    sync_case!(c, "mutarg", None, no_props, |a| mutarg_p(a), mutarg_t(a));
+    sync_case!(c, "pattern", None, no_props, |a| pattern_p((a, 2), [3, a], 9), pattern_t((a, 2), [3, a], 9));
+    sync_case!(c, "constgen", None, no_props, |a| constgen_p(a, [1u8, 2, 3]), constgen_t(a, [1u8, 2, 3]));
+    sync_case!(c, "unsafe", None, no_props, |a| { let k = 5u32; unsafe { unsafe_p(a, &k) } }, { let k = 5u32; unsafe { unsafe_t(a, &k) } });
+    sync_case!(c, "externc", None, no_props, |a| externc_p(a), externc_t(a));
+    sync_case!(c, "loops", None, no_props, |a| loops_p(a), loops_t(a));
+    sync_case!(c, "closure_ret", None, no_props, |a| closure_ret_p(a)(a + 1), closure_ret_t(a)(a + 1));
+    sync_case!(c, "inner_items", None, no_props, |a| inner_items_p(a), inner_items_t(a));
+    sync_case!(c, "closure_early", None, no_props, |a| closure_early_p(a), closure_early_t(a));
+    sync_case!(c, "let_else", None, no_props, |a| let_else_p(a), let_else_t(a));
+    sync_case!(c, "tail_borrow", None, no_props, |a| tail_borrow_p(a), tail_borrow_t(a));
+    sync_case!(c, "unwind_locals", None, no_props, |a| unwind_locals_p(a), unwind_locals_t(a));
+    sync_case!(c, "rec", None, no_props, |a| rec_p(a), rec_t(a));
+    sync_case!(c, "S::boxself", None, no_props, |a| Box::new(S { v: 10 }).boxself_p(a), Box::new(S { v: 10 }).boxself_t(a));
+    sync_case!(c, "S::arcself", None, no_props, |a| std::sync::Arc::new(S { v: 10 }).arcself_p(a), std::sync::Arc::new(S { v: 10 }).arcself_t(a));
+    sync_case!(c, "S::make", None, no_props, |a| S::make_p(a).v, S::make_t(a).v);
+    sync_case!(c, "G::get", None, no_props, |a| G { t: vec![a] }.get_p(a), G { t: vec![a] }.get_t(a));
+    sync_case!(c, "Dflt::dflt", None, no_props, |a| S { v: 4 }.dflt_p(a), S { v: 4 }.dflt_t(a));
     sync_case!(c, "S::ref", None, no_props, |a| S { v: 10 }.ref_p(a), S { v: 10 }.ref_t(a));
     sync_case!(c, "S::mut", Some("mut_t"), no_props, |a| { let mut s = S { v: 10 }; (s.mut_p(a), s.v) }, { let mut s = S { v: 10 }; (s.mut_t(a), s.v) });
     sync_case!(c, "S::own", Some("consume"), no_props, |a| S { v: 10 }.own_p(a), S { v: 10 }.own_t(a));
@@ -506,6 +636,51 @@ fn cases() -> Vec<Case> {
             (s.at_eop_t(a, y).await, s.v)
         }
     );
+    async_case!(
+        c,
+        "arefs",
+        None,
+        no_props,
+        false,
+        |a, y| async move {
+            let mut m = String::from("m");
+            let n = arefs_p(a, y, "rr", &mut m).await;
+            (n, m)
+        },
+        async move {
+            let mut m = String::from("m");
+            let n = arefs_t(a, y, "rr", &mut m).await;
+            (n, m)
+        }
+    );
+    async_case!(c, "apattern", None, no_props, false, |a, y| apattern_p((a, 1), y), apattern_t((a, 1), y));
+    async_case!(c, "anoawait", None, no_props, false, |a, y| anoawait_p(a, y), anoawait_t(a, y));
+    async_case!(c, "adrops", None, no_props, false, |a, y| adrops_p(a, y), adrops_t(a, y));
+    async_case!(c, "ainner", None, no_props, false, |a, y| ainner_p(a, y), ainner_t(a, y));
+    async_case!(c, "aimpl", None, no_props, false, |a, y| aimpl_p(a, y, 0..a + 1), aimpl_t(a, y, 0..a + 1));
+    async_case!(c, "aeop_q", None, no_props, true, |a, y| aeop_q_p(a, y), aeop_q_t(a, y));
+    async_case!(
+        c,
+        "S::amut",
+        None,
+        no_props,
+        true,
+        |a, y| async move {
+            let mut s = S { v: 3 };
+            (s.amut_p(a, y).await, s.v)
+        },
+        async move {
+            let mut s = S { v: 3 };
+            (s.amut_t(a, y).await, s.v)
+        }
+    );
+    async_case!(c, "G::aget", None, no_props, false, |a, y| async move { G { t: "g" }.aget_p(a, y, 7u32).await }, async move { G { t: "g" }.aget_t(a, y, 7u32).await });
+    // cancellation: a future polled once or twice and then dropped is still one call
+    cancel_case!(c, "avalue", None, no_props, false, |a, y| avalue_p(a, y), avalue_t(a, y));
+    cancel_case!(c, "adrops", None, no_props, false, |a, y| adrops_p(a, y), adrops_t(a, y));
+    cancel_case!(c, "aeop", None, no_props, true, |a, y| aeop_p(a, y), aeop_t(a, y));
+    cancel_case!(c, "async_trait", Some("at-name"), |a: u32| vec![("a".to_string(), format!("{a}"))], false, |a, y| async move { S { v: 3 }.at_p(a, y).await }, async move { S { v: 3 }.at_t(a, y).await });
+    cancel_case!(c, "boxed_move", None, no_props, false, |a, y| boxed_move_p(a, y), boxed_move_t(a, y));
     // a plain function records its span when it returns, whatever becomes of the value it returned
     sync_case!(c, "boxed_nomove_leaked", None, no_props, |a| std::mem::forget(boxed_nomove_p(a, 1)), std::mem::forget(boxed_nomove_t(a, 1)));
     sync_case!(c, "boxed_ready_leaked", Some("boxed_ready_t"), no_props, |a| std::mem::forget(boxed_ready_p(a, 1)), std::mem::forget(boxed_ready_t(a, 1)));
@@ -650,7 +825,7 @@ fn main() {
         "coverage": {
             "evaluations": out.evaluations,
             "distinct_nontrivial": out.classes.len(),
-            "rule": "twin functions generated from the same tokens with and without #[trace]: 16 sync shapes (value, name=, short_name, literal/format/escaped properties, early return, ?, panic, &mut mutation, by-value move, borrowed return, generic + where, locals with Drop, nested annotated call, unit, impl Trait return), 5 methods (&self, &mut self, self, properties over self fields, async &self), 11 async shapes (incl. enter_on_poll, ?, panic, early return, moves, &mut borrow, generic, nested), async_trait impl (in_span and enter_on_poll), native async-in-trait, 4 plain functions returning a boxed future (Box::pin(async { .. }) and Box::pin(async move { .. }) after other statements, a lone Box::pin(async move { .. }), Box::pin(ready(..)); two of them also with the returned future leaked); x arguments {0,1,2} x pending polls {0,1,2} x {under a root, inside a local span, no local parent, local parent set anew around every poll (async twins)}; distinct_nontrivial counts distinct (function, local parent?, outcome kind) classes",
+            "rule": "twin functions generated from the same tokens with and without #[trace]: 16 sync shapes (value, name=, short_name, literal/format/escaped properties, early return, ?, panic, &mut mutation, by-value move, borrowed return, generic + where, locals with Drop, nested annotated call, unit, impl Trait return), 5 methods (&self, &mut self, self, properties over self fields, async &self), 11 async shapes (incl. enter_on_poll, ?, panic, early return, moves, &mut borrow, generic, nested), async_trait impl (in_span and enter_on_poll), native async-in-trait, further sync shapes (mut / pattern / wildcard arguments, const generics, unsafe fn, extern C fn, labelled loops, returned closure, inner items, return inside a closure, let-else, unwinding past locals, recursion, Box<Self> / &Arc<Self> receivers, Self-returning associated function, method of a generic impl, default method of a trait), further async shapes (reference arguments, pattern arguments, no await, locals dropped across awaits, inner async blocks and closures, impl Trait argument, enter_on_poll with ? and &mut self, generic method of a generic impl), cancellation (future polled once or twice, then dropped: 5 shapes), 4 plain functions returning a boxed future (Box::pin(async { .. }) and Box::pin(async move { .. }) after other statements, a lone Box::pin(async move { .. }), Box::pin(ready(..)); two of them also with the returned future leaked); x arguments {0,1,2} x pending polls {0,1,2} x {under a root, inside a local span, no local parent, local parent set anew around every poll (async twins)}; distinct_nontrivial counts distinct (function, local parent?, outcome kind) classes",
             "samples": [cases().iter().map(|c| c.id.clone()).step_by(17).collect::<Vec<_>>()],
             "exhaustive": true,
             "violation_list": out.violations,
